@@ -367,6 +367,10 @@ class Env:
                 if unit is not None and (node["unit"] is None or
                                          self.units.dims(unit) != self.units.dims(node["unit"])):
                     raise Unspecified("condition literal in a unit of another dimension")
+            if node["condition"] is not None:
+                # a second !condition on the same node: replaces or adds to the first - the
+                # statement says "its !condition expression"; see check_constraints
+                node["cond_prev"] = list(node.get("cond_prev", [])) + [node["condition"]]
             node["condition"] = st["expr"]
         elif k == "format":
             if node["type"] != "str":
@@ -840,6 +844,11 @@ def check_constraints(env, node, margin=0.0):
             raise Abort("condition is false", "C16", [node["path"], v, node["condition"]])
         if r is None:
             raise Unspecified("value within the tolerance band of a condition boundary")
+        for prev in node.get("cond_prev", ()):
+            probe = dict(node, condition=prev)
+            probe.pop("cond_bad", None)
+            if eval_condition(env, probe, v, margin) is not True:
+                raise Unspecified("an earlier !condition of the same node does not hold")
     if node["format"] is not None and isinstance(v, str):
         n += 1
         if not re.match(node["format"], v):
